@@ -407,13 +407,17 @@ def _r4(ctx, rep, eff):
     if pk is None:
         raise AnalysisError("_create_order_package: package construction not found")
     c, kws = pk
-    loops = [lp for lp in walk_nodes(f.node.body, ast.For) if c in walk_calls(lp.body)]
-    outer = [lp for lp in loops if call_name(lp.iter) == "items" and recv_text(lp.iter) == gdict]
-    inner = [lp for lp in loops if isinstance(lp.iter, ast.Call) and call_name(lp.iter) == "chunks"]
-    good = len(outer) == 1 and len(inner) == 1
+    from sa.kinds import enclosing_iterations
+    its = enclosing_iterations(f.node, c)
+    outer = [it for it in its if call_name(it[1]) == "items" and recv_text(it[1]) == gdict]
+    inner = [it for it in its if isinstance(it[1], ast.Call) and call_name(it[1]) == "chunks"]
+    good = len(outer) == 1 and len(inner) == 1 and len(its) == 2 and its[0] is outer[0] and not outer[0][2] and not inner[0][2]
     detail = ""
     if good:
-        o, i = outer[0], inner[0]
+        class _It:  # the two iterations, whichever way they are written
+            def __init__(self, t):
+                self.target, self.iter, self.carrier = t[0], t[1], t[3]
+        o, i = _It(outer[0]), _It(inner[0])
         kv = [utext(e) for e in o.target.elts] if isinstance(o.target, ast.Tuple) else []
         good = (len(kv) == 2 and utext(kws.get("market_version")) == kv[0]
                 and utext(i.iter.args[0]) == kv[1] and utext(kws["orders"]) == utext(i.target)
@@ -432,7 +436,7 @@ def _r4(ctx, rep, eff):
         if isinstance(i.iter.args[1], ast.Call):
             s2 = i.iter.args[1]
             flow = call_name(s2) == "order_limit" and utext(s2.args[0]) == ptype_p
-        rep.check(flow, "R4c", key(f, None, "chunk size is order_limit(package_type)"), f, i,
+        rep.check(flow, "R4c", key(f, None, "chunk size is order_limit(package_type)"), f, i.carrier,
                   "chunk size expression: %s" % (utext(src) if src is not None else lim))
         nrebind = [s for s in walk_nodes(f.node.body, (ast.Assign, ast.AugAssign))
                    if any(utext(t) == lim for t in (s.targets if isinstance(s, ast.Assign) else [s.target]))]
